@@ -23,12 +23,13 @@ THEOREMS = [
 RULE = ("marble strings rendered from generated token lists (ticks, single- and multi-character values, numbers in int/float "
         "syntax, groups with empty/terminal/odd items, '|', '#', top-level commas) with spaces inserted at random positions, plus a "
         "malformed stream of raw strings over the alphabet (unbalanced parentheses, numeric look-alikes); integer timespans/shifts "
-        "(negative included for parse), lookups keyed by strings/ints/floats, raise_stopped on/off; real parse vs the Lean scanner, "
+        "(negative included for parse; a third of the cases pass timespan/shift/duetime as float, timedelta or absolute datetime in quarter "
+        "seconds incl. fractional, multi-day and negative shifts), lookups keyed by strings/ints/floats, raise_stopped on/off; real parse vs the Lean scanner, "
         "and from_marbles/hot recordings on TestScheduler vs the model's delivery. non-trivial = the string has a group, a "
         "multi-character value or a space, and parses to at least two messages or to an error")
 ASSUMPTIONS = [
     "characters are ASCII (Python's int()/float() also accept Unicode digits and strip Unicode whitespace; not modelled)",
-    "timespans and shifts are integers (float timespans are not modelled)",
+    "timespans and shifts are integers in the model; the code's float / timedelta / datetime forms are exercised on multiples of a quarter second (exact in binary), which the model treats as integers in quarter-second units; other float timespans are not modelled",
     "float lexemes have at most 15 significant digits and |exponent| <= 20 (so that decimal equality coincides with equality of doubles for lookups)",
     "delivery is checked for timespan >= 0 (then parse output is sorted by time)",
 ]
@@ -139,7 +140,7 @@ def gen_lookup(rng, s):
     return [[enc(k), enc(v)] for k, v in d.items()]
 
 
-def cases(rng, tier):
+def _cases(rng, tier):
     n = fw.tier_scale(tier, 2500, 25000)
     for _ in range(n):
         s = gen_string(rng)
@@ -159,8 +160,33 @@ def cases(rng, tier):
                "disp": rng.choice([1000, 1000, 300, 340])}   # disp >= every subscription time
 
 
+def cases(rng, tier):
+    """A third of the cases pass timespan / shift (duetime) as floats, timedeltas or — for hot — an absolute datetime, in
+    quarter seconds (`unit` = 4: k/4 s is exact in binary, so times compare exactly), with fractional, multi-day and negative
+    shifts.  All times of such a case (timespan, shift, sub, subs, disp) are integers in 1/unit seconds."""
+    for c in _cases(rng, tier):
+        if rng.random() < 0.35:
+            op = c["op"]
+            c["unit"] = 4
+            c["ts_form"] = rng.choice(["float", "td", "td"])
+            c["timespan"] = rng.choice([1, 2, 3, 4, 5, 10, 40, 0]) if op != "marbles_parse" else rng.choice([1, 2, 3, 4, 5, -1, 40, 0])
+            if op == "marbles_parse":
+                c["shift_form"] = rng.choice(["float", "td", "td"])
+                c["shift"] = rng.choice([0, 1, 8, 9, 801, 360246, 86400 * 4 + 2, -2, -1, -345601, 5])
+            elif op == "marbles_hot":
+                c["shift_form"] = rng.choice(["float", "td", "td", "dt", "dt"])
+                c["shift"] = rng.choice([0, 1, 9, 801, 1203, 360246, 86400 * 4 + 2, 5])
+                base = c["shift"]
+                c["subs"] = sorted([rng.choice([0, 1, base, base + 3, base + 10]), rng.choice([0, 2, base + 1, base + 7])])
+                c["disp"] = max(c["subs"]) + rng.choice([4000, 4000, 13, 40])
+            else:
+                c["sub"] = c["sub"] * 4 + rng.choice([0, 1, 2])
+                c["disp"] = c["sub"] + rng.choice([4000, 4000, 9, 30, 41])
+        yield c
+
+
 def model_request(case):
-    c = dict(case)
+    c = {k: v for k, v in case.items() if k not in ("unit", "ts_form", "shift_form")}
     if c.get("err") is None:
         c.pop("err", None)
     return c
@@ -186,9 +212,31 @@ def _verr(e):
     return {"err": "other:" + m}
 
 
-def _msg_json(t, n, exact_int=True):
+def _tv(k, unit, form):
+    """k/unit seconds as an int, a float, a timedelta or an absolute datetime (epoch + k/unit s)"""
+    from datetime import datetime, timedelta, timezone
+    if form == "int":
+        assert unit == 1
+        return k
+    if form == "float":
+        return k / unit
+    td = timedelta(microseconds=k * 1000000 // unit)
+    if form == "td":
+        return td
+    return datetime(1970, 1, 1, tzinfo=timezone.utc) + td
+
+
+def _units(t, unit):
+    v = t * unit
+    if float(v) != int(v):
+        raise TypeError(f"time {t!r} is not a whole number of 1/{unit} seconds")
+    return int(v)
+
+
+def _msg_json(t, n, exact_int=True, unit=1):
     if exact_int and (isinstance(t, bool) or not isinstance(t, int)):
         raise TypeError(f"parse returned a non-int time {t!r} for integer timespan/shift")
+    t = _units(t, unit)
     if n.kind == "N":
         return [int(t), ["N", enc(n.value)]]
     if n.kind == "E":
@@ -196,13 +244,8 @@ def _msg_json(t, n, exact_int=True):
     return [int(t), ["C"]]
 
 
-def _rec_json(messages):
-    out = []
-    for m in messages:
-        if float(m.time) != int(m.time):
-            raise TypeError(f"non-integral virtual time {m.time!r}")
-        out.append(_msg_json(int(m.time), m.value))
-    return out
+def _rec_json(messages, unit=1):
+    return [_msg_json(m.time, m.value, exact_int=False, unit=unit) for m in messages]
 
 
 def impl(case):
@@ -211,40 +254,43 @@ def impl(case):
     from reactivex.testing import TestScheduler
 
     op = case["op"]
+    unit = case.get("unit", 1)
+    tsf, shf = case.get("ts_form", "int"), case.get("shift_form", "int")
+    timespan = _tv(case["timespan"], unit, tsf)
     if op == "marbles_parse":
         try:
-            msgs = parse(case["s"], timespan=case["timespan"], time_shift=case["shift"], lookup=_lookup(case), error=_err(case),
+            msgs = parse(case["s"], timespan=timespan, time_shift=_tv(case["shift"], unit, shf), lookup=_lookup(case), error=_err(case),
                          raise_stopped=case["raise_stopped"])
         except ValueError as e:
             return _verr(e)
-        return {"ok": [_msg_json(t, n) for t, n in msgs]}
+        return {"ok": [_msg_json(t, n, exact_int=(tsf == "int" and shf == "int"), unit=unit) for t, n in msgs]}
     sched = TestScheduler()
     if op == "marbles_cold":
         try:
-            obs = reactivex.from_marbles(case["s"], timespan=case["timespan"], lookup=_lookup(case), error=_err(case))
+            obs = reactivex.from_marbles(case["s"], timespan=timespan, lookup=_lookup(case), error=_err(case))
         except ValueError as e:
             return _verr(e)
         o = sched.create_observer()
         holder = []
-        sched.schedule_absolute(case["disp"], lambda s, st: holder[0].dispose() if holder else None)
-        sched.schedule_absolute(case["sub"], lambda s, st: holder.append(obs.subscribe(o, scheduler=s)))
+        sched.schedule_absolute(case["disp"] / unit, lambda s, st: holder[0].dispose() if holder else None)
+        sched.schedule_absolute(case["sub"] / unit, lambda s, st: holder.append(obs.subscribe(o, scheduler=s)))
         sched.start()
-        return {"ok": _rec_json(o.messages)}
+        return {"ok": _rec_json(o.messages, unit)}
     if op == "marbles_hot":
         try:
-            obs = reactivex.hot(case["s"], timespan=case["timespan"], duetime=case["shift"], lookup=_lookup(case), error=_err(case),
-                                scheduler=sched)
+            obs = reactivex.hot(case["s"], timespan=timespan, duetime=_tv(case["shift"], unit, shf), lookup=_lookup(case),
+                                error=_err(case), scheduler=sched)
         except ValueError as e:
             return _verr(e)
         outs = []
         for sub in case["subs"]:
             o = sched.create_observer()
             holder = []
-            sched.schedule_absolute(sub, (lambda o, holder: lambda s, st: holder.append(obs.subscribe(o, scheduler=s)))(o, holder))
-            sched.schedule_absolute(case["disp"], (lambda holder: lambda s, st: holder[0].dispose() if holder else None)(holder))
+            sched.schedule_absolute(sub / unit, (lambda o, holder: lambda s, st: holder.append(obs.subscribe(o, scheduler=s)))(o, holder))
+            sched.schedule_absolute(case["disp"] / unit, (lambda holder: lambda s, st: holder[0].dispose() if holder else None)(holder))
             outs.append(o)
         sched.start()
-        return {"ok": [_rec_json(o.messages) for o in outs]}
+        return {"ok": [_rec_json(o.messages, unit) for o in outs]}
     raise ValueError(op)
 
 
@@ -340,13 +386,16 @@ def oracle(case, out):
         return None
     # delivery: exactly the parsed notifications at the parsed times (relative to subscription / creation)
     from reactivex.observable.marbles import parse
+    unit = case.get("unit", 1)
     shift = case.get("shift", 0)
     try:
-        msgs = parse(case["s"], timespan=case["timespan"], time_shift=shift, lookup=lk, error=_err(case), raise_stopped=True)
+        # plain numbers (exact: k/unit with unit a power of two), whatever form the observable itself was given
+        msgs = parse(case["s"], timespan=case["timespan"] if unit == 1 else case["timespan"] / unit,
+                     time_shift=shift if unit == 1 else shift / unit, lookup=lk, error=_err(case), raise_stopped=True)
     except ValueError as e:
         exp = _verr(e)
         return None if fw.key(exp) == fw.key(out) else f"expected {exp}, got {out}"
-    parsed = [_msg_json(t, n) for t, n in msgs]
+    parsed = [_msg_json(t, n, exact_int=False, unit=unit) for t, n in msgs]
     if "ok" not in out:
         return f"parse succeeded but the observable constructor raised: {out}"
     if op == "marbles_cold":
@@ -377,6 +426,11 @@ def _words(s):
 
 def bucket(case, out):
     yield case["op"]
+    if case.get("unit", 1) != 1:
+        yield "quarter-seconds:timespan-as-" + case["ts_form"]
+        if "shift_form" in case:
+            yield "quarter-seconds:shift-as-" + case["shift_form"]
+            yield "shift:" + ("negative" if case["shift"] < 0 else "multi-day" if case["shift"] >= 86400 * 4 else "fractional" if case["shift"] % 4 else "whole")
     s = case["s"]
     if "ok" in out:
         yield "result:ok"
